@@ -2,6 +2,6 @@ SPECIFICATION Spec
 CONSTANTS
   NN = 2
   Defects = {}
-INVARIANTS DegreeBound MatchesValues MatchesDerivatives ErrExactlyForMismatch
+INVARIANTS DegreeBound MatchesValues MatchesDerivatives ErrExactlyForMismatch PanicOnlyWithoutNodes
 PROPERTY Terminates
 CHECK_DEADLOCK FALSE
